@@ -453,6 +453,10 @@ class MinMaxAggregator:
         if unbound:
             log.info(f"Cannot translate {loc2str(agg.location)} as {[str(x) for x in unbound]} would be unsafe.")
             return [rule]
+        if rule.ast_type == ASTType.Rule and inside_variables.intersection(collect_ast(rule.head, "Variable")) - rest_vars:
+            # bound by a condition in the head, e.g. { r(P,X) : g(P) } :- X = #max { V : s(P,V) }.
+            log.info(f"Cannot translate {loc2str(agg.location)} as it shares a variable with the head only.")
+            return [rule]
         if rule.ast_type == ASTType.Minimize:
             rest_vars.update(inside_variables.intersection(collect_ast(rule.weight, "Variable")))
             rest_vars.update(inside_variables.intersection(collect_ast(rule.priority, "Variable")))
